@@ -130,6 +130,7 @@ pub fn run(args: &[Val]) -> Val {
         return Val::err("setup");
     }
     let mut ctl: Option<(String, std::thread::JoinHandle<bool>)> = None;
+    let mut armed: std::collections::HashSet<String> = std::collections::HashSet::new();
     let settle = |probe: &EventFd, rx: &std::sync::mpsc::Receiver<()>| -> bool {
         while rx.try_recv().is_ok() {}
         let _ = probe.write(1);
@@ -142,12 +143,16 @@ pub fn run(args: &[Val]) -> Val {
                 let _ = kick.write(1);
                 std::thread::sleep(Duration::from_millis(2));
             }
-            "arm" => hold::arm(arg),
+            "arm" => {
+                armed.insert(arg.clone());
+                hold::arm(arg)
+            }
             "wait" => {
                 let h = hold::wait_held(arg, Duration::from_millis(300));
                 log.lock().unwrap().push(format!("{}:{}", if h { "held" } else { "not-held" }, arg));
             }
             "release" => {
+                armed.remove(arg);
                 hold::release(arg);
                 std::thread::sleep(Duration::from_millis(3));
             }
@@ -171,6 +176,12 @@ pub fn run(args: &[Val]) -> Val {
             "join" => {
                 if let Some((name, h)) = ctl.take() {
                     let ok = h.join().unwrap_or(false);
+                    // a dispatch the message made due (an enabling message with a kick pending) runs on the worker
+                    // thread concurrently with this one: let the worker finish it before the reply is logged, as
+                    // the model's "everything free runs" does; not when the worker is parked at a hold point
+                    if !armed.iter().any(|a| a.starts_with("worker:")) {
+                        let _ = settle(&probe, &rx);
+                    }
                     log.lock().unwrap().push(format!("reply:{}:{}", name, if ok { "ok" } else { "err" }));
                 }
             }
